@@ -99,3 +99,17 @@ Proof.
     apply memzb_In in Hb. rewrite Hb. destruct (U b0 (or_introl eq_refl)) as [x Hx]. rewrite Hx. discriminate.
   - destruct W as [b0 ->]. destruct Hb as [<-|[]]. rewrite get_set_eq. discriminate.
 Qed.
+
+Theorem lifecycle_plain : forall p : list action, lifecycle_ok p ->
+  (* created at most once *)
+  (forall p1 a p2 b, p = p1 ++ a :: p2 -> In b (creates a) -> Forall (fun a' => ~ In b (creates a')) p2) /\
+  (* never mentioned (used, re-created, hibernated, booted, disposed again) after its disposal *)
+  (forall p1 a p2 b, p = p1 ++ a :: p2 -> kind a = KDelete -> items a = [b] -> Forall (fun a' => ~ In b (items a')) p2) /\
+  (* a branch that is never created is never mentioned; applied to a prefix: every mention comes after the creation *)
+  (forall b, Forall (fun a => ~ In b (creates a)) p -> Forall (fun a => ~ In b (items a)) p).
+Proof.
+  intros p L. split; [|split].
+  - intros p1 a p2 b E Hb. exact (created_once p p1 a p2 b L E Hb).
+  - intros p1 a p2 b E K I. exact (no_mention_after_delete p p1 a p2 b L E K I).
+  - exact (created_before_mentioned p L).
+Qed.
